@@ -34,8 +34,10 @@ MANIFEST = dict(
     level_note=("Trusted: Lean kernel; the socket/pipe environment model; the harness fakes. Completeness ('eventually "
                 "delivered'): proved is that no reachable state is stuck - a world that none of the loop's own moves changes "
                 "has delivered everything (C02_no_stuck_state, C02_stuck_is_complete in Props/C02.lean, over the same model) - "
-                "and that no wake-up is lost per handler (C02_wakeup_*); that the real loop reaches such a state within bounded "
-                "work is checked on the real code by the real-loop drain oracle, not proved. Real kernel TCP and select are outside."),
+                "that no wake-up is lost per handler (C02_wakeup_*), and that every run of effective loop moves is at most "
+                "worldMu long and, continued until no move changes anything, ends with everything delivered "
+                "(C02_bounded_work, C02_maximal_run_delivers). That the real scheduler takes an effective move whenever one exists "
+                "is checked on the real code by the real-loop drain oracle, not proved. Real kernel TCP and select are outside."),
     technique="Lean 4 proof (stream-decomposition invariant over all schedules) + differential replay on the real tunnel classes",
 )
 
